@@ -2,7 +2,7 @@ from dataclasses import dataclass, field
 
 from kirin import interp, ir
 from kirin.analysis import ForwardExtra, ForwardFrame, const
-from kirin.dialects import func, scf
+from kirin.dialects import func, ilist, scf
 from kirin.lattice import EmptyLattice
 
 
@@ -138,3 +138,42 @@ class Func(interp.MethodTable):
         self, _interp: RuntimeAnalysis, frame: RuntimeFrame, stmt: func.Return
     ):
         return interp.ReturnValue(frame.get_values(stmt.results))
+
+
+@ilist.dialect.register(key="runtime")
+class IList(interp.MethodTable):
+
+    @interp.impl(ilist.Map)
+    @interp.impl(ilist.ForEach)
+    @interp.impl(ilist.Foldl)
+    @interp.impl(ilist.Foldr)
+    @interp.impl(ilist.Scan)
+    def apply_fn(
+        self,
+        _interp: RuntimeAnalysis,
+        frame: RuntimeFrame,
+        stmt: ilist.Map | ilist.ForEach | ilist.Foldl | ilist.Foldr | ilist.Scan,
+    ):
+        # the function handed to map/for_each/fold/scan is executed: it is quantum
+        # whenever its body is
+        callee_result = stmt.fn.hints.get("const")
+        if isinstance(callee_result, const.Value) and isinstance(
+            callee_result.data, ir.Method
+        ):
+            method = callee_result.data
+            args = (_interp.lattice.top(),) * (len(method.arg_names) - 1)
+            callee_frame, _ = _interp.run_method(method, args)
+        elif (
+            isinstance(callee_result, const.PartialLambda)
+            and (trait := callee_result.code.get_trait(ir.CallableStmtInterface))
+            is not None
+        ):
+            body = trait.get_callable_region(callee_result.code)
+            args = (_interp.lattice.top(),) * len(body.blocks[0].args)
+            with _interp.new_frame(stmt) as callee_frame:
+                _interp.run_ssacfg_region(callee_frame, body, args)
+        else:
+            raise InterruptedError("Dynamic method calls are not supported")
+
+        frame.is_quantum = frame.is_quantum or callee_frame.is_quantum
+        return tuple(_interp.lattice.top() for _ in stmt.results)
